@@ -270,7 +270,11 @@ func (g *gctx) params(f *javagen.File) []javagen.Param {
 			continue
 		}
 		used[name] = true
-		out = append(out, javagen.Param{Type: g.varType(f), Name: name})
+		pm := javagen.Param{Type: g.varType(f), Name: name}
+		if (pm.Type == "String" || pm.Type == "int") && g.r.Intn(2) == 0 {
+			pm.Array = true // String argv[]
+		}
+		out = append(out, pm)
 	}
 	return out
 }
